@@ -29,9 +29,9 @@ Mutable == {"ACTIVE", "STOPPING"}
 NoMeta == [c \in Cells |-> None]
 
 \* ---- measurement tokens -> metric values (metric "a" and metric "b").
-\* "mp" reports only metric a; "mn" reports a = NaN (b = 1).
-MA(m) == CASE m = "m1" -> 1 [] m = "m2" -> 2 [] m = "m3" -> 1 [] m = "mp" -> 2 [] OTHER -> 0
-MB(m) == CASE m = "m1" -> 2 [] m = "m2" -> 1 [] m = "m3" -> 1 [] m = "mn" -> 1 [] OTHER -> 0
+\* "mp" reports only metric a; "mn" reports a = NaN (b = 1); "mi", "mj" report a = +infinity (9 in the model) with b = 2, 1.
+MA(m) == CASE m = "m1" -> 1 [] m = "m2" -> 2 [] m = "m3" -> 1 [] m = "mp" -> 2 [] m = "mi" -> 9 [] m = "mj" -> 9 [] OTHER -> 0
+MB(m) == CASE m = "m1" -> 2 [] m = "m2" -> 1 [] m = "m3" -> 1 [] m = "mn" -> 1 [] m = "mi" -> 2 [] m = "mj" -> 1 [] OTHER -> 0
 HasB(m) == m # "mp"
 ANaN(m) == m = "mn"
 \* ---- metric configurations
